@@ -21,7 +21,8 @@ Init == mask \in {m \in Masks(R, C) : m % STEP = 0} /\ pc = "in" /\ out = <<>>
 Block   == KIND = "block"   /\ pc = "in" /\ pc' = "block"   /\ out' = Materialize(BlockView(A, B)) /\ UNCHANGED mask
 Unblock == KIND = "block"   /\ pc = "block" /\ pc' = "unblock" /\ out' = UnblockRun(out, B) /\ UNCHANGED mask
 Complex == KIND = "complex" /\ pc = "in" /\ pc' = "complex" /\ out' = Materialize(ComplexView(Ac)) /\ UNCHANGED mask
-Next == Block \/ Unblock \/ Complex
+NextBlock   == Block \/ Unblock           \* FormulationsModel.cfg
+NextComplex == Complex                    \* FormulationsComplex.cfg
 
 \* block entries in place (i mod b, j mod b), structurally incomplete blocks zero-filled, no block twice
 BlockInv   == pc = "block" => /\ BlockOK(A, B, out)
